@@ -111,6 +111,10 @@ def make_sized(spec):
         return np.arange(max(1, n // 8), dtype=np.int64) + u
     if t == "int":
         return u
+    if t == "bigdf":
+        # more than 100 rows of strings of varying width: the library estimates the size of such a frame from a random sample
+        # of 100 rows, so two estimates of the same frame differ
+        return pd.DataFrame({"a": [tag + "x" * ((i * 7 + u) % 41) for i in range(160)], "b": np.arange(160, dtype=np.int64)})
     if t == "badpart":
         # a partition that cannot be stored: its first value (keys are stored in sorted order) has the bytes of the str value
         # with the same (u, n), its last value is something the codec cannot encode
